@@ -245,6 +245,7 @@ X1_UNLIMITED = ["extrapol2", "extrapol3", "centered", "fromm", "quick",
 X1_MUSCL = ["muscl:" + l for l in LIMITERS]
 X1_ALL = ["extrapol1"] + X1_UNLIMITED + X1_MUSCL
 X1_SHORT = ["extrapol1", "extrapol2", "extrapol3", "centered", "extrapolk:0.7"] + X1_MUSCL
+X1_REST = [r for r in X1_ALL if r not in X1_SHORT]      # quick tiers: these names are explored on a reduced set of models (every name is explored)
 X2_ALL = ["extrapol2d1"] + ["extrapol2dk:%r" % k for k in (-1.0, 0.0, 1.0 / 3.0, 0.5, 1.0)]
 
 
